@@ -517,7 +517,9 @@ class NumbaReductionOps:
 
     @_scalar_func_decorator
     def sum_square(x, y):
-        return x + y**2
+        # square in floating point: an int64 square overflows from about 3.04e9 on
+        y_float = y * 1.0
+        return x + y_float * y_float
 
 
 def get_array_name(
